@@ -33,18 +33,18 @@ TECHNIQUE = ('exhaustive enumeration of read sequences x single/pair fault '
              'placements x expected_format x iteration order on the real '
              'InspectWrapper, each execution compared with a reference model '
              'of the wrapper loop driven by stand-alone inspectors')
-LEVEL_TEXT = ('Every read sequence over the cut set, through both source '
-              'protocols, with every single injected fault (any inspector, any '
-              'call index, four exception classes) and a family of fault '
-              'pairs, under every expected_format and both iteration orders of '
-              'the inspector set, is executed on the real wrapper; delivered '
-              'bytes, the propagated exception (identity and chunk), calls '
-              'reaching each inspector, final inspector states and the source '
-              'position are compared with the reference prediction.')
-LEVEL_NOTE = ('Faults are Exception subclasses raised from eat_chunk (the '
-              'wrapper catches Exception); BaseException subclasses are out of '
-              'scope. Sources are five representative streams; read sequences '
-              'are subsets of 5-6 positions per stream.')
+LEVEL_TEXT = ('Every read sequence over the cut set, through three source protocols (exact- '
+'size reads, an iterator, fixed-size reads answered short or empty), with every '
+'single injected fault (any inspector, any call index, four exception classes) '
+'and a family of fault pairs, under every expected_format and both iteration '
+'orders of the inspector set, and every single fault again with DEBUG logging '
+'enabled, is executed on the real wrapper; delivered bytes, the propagated '
+'exception (identity and chunk), calls reaching each inspector, final inspector '
+'states and the source position are compared with the reference prediction.')
+LEVEL_NOTE = ('Faults are Exception subclasses raised from eat_chunk (the wrapper catches '
+'Exception); BaseException subclasses are out of scope. Sources are eight '
+'representative streams; read sequences are subsets of 5-6 positions per '
+'stream.')
 
 ALL = ['raw', 'qcow2', 'vhd', 'vhdx', 'vmdk', 'vdi', 'qed', 'iso', 'gpt', 'luks']
 
